@@ -4,7 +4,6 @@ package main
 // a real server (bundled example store) on kernel-assigned ports, TLS fixtures generated at run time.
 
 import (
-	"syscall"
 	"bufio"
 	"crypto/ecdsa"
 	"crypto/elliptic"
@@ -26,6 +25,7 @@ import (
 	"strings"
 	"sync"
 	"sync/atomic"
+	"syscall"
 	"time"
 
 	exserver "github.com/cybergarage/go-redis/examples/go-redisd/server"
@@ -932,10 +932,15 @@ func modeChurn(args []string) {
 		}
 		if stopWithOpen {
 			res.RegistryAfter = len(s.srv.Conns())
-			for _, c := range open { // every client must see its connection closed by Stop
+			for i, c := range open { // every client must see its connection closed by Stop
 				c.SetDeadline(time.Now().Add(ioTimeout))
-				if _, err := c.Read(make([]byte, 1)); err == nil || errors.Is(err, os.ErrDeadlineExceeded) {
-					res.Note = "a client connection was still open after Stop returned"
+				if n, err := c.Read(make([]byte, 4096)); (err == nil && n == 0) || errors.Is(err, os.ErrDeadlineExceeded) {
+					res.Note = fmt.Sprintf("a client connection (#%d of 5 plain + 3 still shaking hands on the TLS port) was still open after Stop returned", i)
+				} else if err == nil {
+					// bytes of the server's handshake answer: read on until the close
+					if _, err := io.ReadAll(c); errors.Is(err, os.ErrDeadlineExceeded) {
+						res.Note = fmt.Sprintf("a client connection (#%d of 5 plain + 3 still shaking hands on the TLS port) was still open after Stop returned", i)
+					}
 				}
 				c.Close()
 			}
